@@ -472,7 +472,7 @@ pub fn run(rep: &mut Report) {
     {
         let mut srng = Rng::new(fnv64(&(rep.seed ^ 0xC13_57E5).to_le_bytes()));
         let t0 = std::time::Instant::now();
-        for round in 0..rep.budget(2, 3) {
+        for round in 0..rep.budget(12, 2) {
             let ndirs = 300;
             let mut files = vec![];
             for d in 0..ndirs {
